@@ -26,6 +26,10 @@ def run(prop, path):
                 b = os.path.basename(str(a))
                 if isinstance(a, str) and a.startswith("/") and os.path.exists(os.path.join(scratch, b)):
                     a = os.path.join(scratch, b)
+                elif isinstance(a, str) and "/physis-verif." in a:
+                    a = os.path.join(scratch, b)
+                    if b == "work":
+                        os.makedirs(a, exist_ok=True)
                 args.append(a)
             rec = w.call(c["verb"], *args)
             print(json.dumps({k: rec.get(k) for k in ("verb", "outcome", "value", "mon", "panic", "oversize")}, default=str)[:3000])
